@@ -39,7 +39,7 @@ def evaluate(ctx, cases, kf, check_spec=True):
     """-> (violations, disagreements, reproduced finding ids, stats, distinct nontrivial, samples)"""
     ir = pipeline.run_impl(cases)
     mr = pipeline.run_model(cases) if ctx.driver_ok else [None] * len(cases)
-    sp = pipeline.run_spec(cases, ir) if (ctx.driver_ok and check_spec) else [None] * len(cases)
+    sp = pipeline.run_spec(cases, ir) if (ctx.spec_ok and check_spec) else [None] * len(cases)
     violations, disagreements, reproduced = [], [], set()
     stats = {"outcome": {}, "facts": 0, "shapes": 0, "statements": 0, "switches": {}, "target_mode": {}, "nonliteral_lines": 0}
     seen = set()
@@ -115,7 +115,7 @@ def run(ctx):
     if (dis or not ctx.build_ok or not ctx.driver_ok) and not viol and ctx.tier == "quick":
         # proof or correspondence broken: enlarge the search on the implementation
         more = make_cases(random.Random(ctx.seed + 99), 2500)
-        v2, _, rep2, _, _, _ = evaluate(ctx, more, kf, check_spec=ctx.driver_ok)
+        v2, _, rep2, _, _, _ = evaluate(ctx, more, kf, check_spec=ctx.spec_ok)
         viol += v2
         rep |= rep2
     # shrink the first violations
